@@ -104,6 +104,10 @@ KeyOutcome(e, tT, tIT, tR, nn, pres, hh) ==
       lk == Lookup(tT, tR, nn, k)
       isPresent == e.key \in pres
       Out(r, c) == [reason |-> r, class |-> c, add |-> {}]
+      \* the input class that names a finding: equal cells at a fork explain only a hidden key / value reference
+      Cls(r) == LET kc == KeyClass(tT, tIT, tR, nn, k) IN
+                IF (kc = "twin" /\ r = "value:pruned") \/ (kc = "valueref" /\ r = "value:refs") THEN kc
+                ELSE IF Partial(tT) THEN "partial" ELSE "plain"
   IN IF nn = 0 \/ Len(k) # nn THEN Out("domain:key-width", "plain")
      \* the key's path runs into a pruned branch of a partial source: the statement says nothing (only: no panic)
      ELSE IF ~lk.ok /\ Partial(tT) /\ lk.why = "pruned" THEN (IF e.panic # "" THEN Out("panic", "partial") ELSE Out("", ""))
@@ -111,22 +115,21 @@ KeyOutcome(e, tT, tIT, tR, nn, pres, hh) ==
      ELSE IF Has(e, "exp") /\ (e.exp.found # isPresent \/ (isPresent /\ e.exp.v # BitsToStr(lk.v.b))) THEN Out("domain:spec-inconsistent", "plain")
      ELSE IF e.panic # "" THEN Out("panic", "plain")
      ELSE IF ~isPresent THEN (IF e.err # "" /\ e.proof = "" THEN Out("", "") ELSE Out("absent-key-proved", "plain"))
-     ELSE IF e.err # "" THEN Out("present-key-error", KeyClass(tT, tIT, tR, nn, k))
+     ELSE IF e.err # "" THEN Out("present-key-error", Cls("present-key-error"))
      ELSE
      LET V  == FromJson(e.val.cells)
          IV == InfoTable(V)
          vr == e.val.roots[1] + 1
      IN \* the value returned beside the proof is the value the dictionary holds
         IF ~(V[vr].b = lk.v.b /\ Len(V[vr].r) = Len(lk.v.r)
-             /\ \A j \in 1..Len(lk.v.r) : ReprHash(IV[V[vr].r[j]]) = ReprHash(tIT[lk.v.r[j]])) THEN Out("returned-value", KeyClass(tT, tIT, tR, nn, k))
+             /\ \A j \in 1..Len(lk.v.r) : ReprHash(IV[V[vr].r[j]]) = ReprHash(tIT[lk.v.r[j]])) THEN Out("returned-value", Cls("returned-value"))
         ELSE LET pv == ProofVerdict(HexToBytes(e.proof), tT, tIT, tR, nn, k)
                  \* the pruned branch that hides the key (or part of its value) was pruned by an earlier request
                  leak == \/ pv.reason = "value:pruned" /\ pv.bad \in hh
                          \/ pv.reason = "value:refs" /\ \E q \in pv.psp \cap hh : PathPrefix(PathOf(lk), q)
              \* leak first: an earlier ACCEPTED request pruned that very occurrence, i.e. it passed the same fork on the
              \* other side and its own path survived - equal cells at that fork are not what hides the key
-                 kc == KeyClass(tT, tIT, tR, nn, k)
-             IN IF pv.reason # "" THEN Out(pv.reason, IF leak THEN "leak" ELSE IF kc = "plain" /\ Partial(tT) THEN "partial" ELSE kc)
+             IN IF pv.reason # "" THEN Out(pv.reason, IF leak THEN "leak" ELSE Cls(pv.reason))
                 ELSE [reason |-> "", class |-> "", add |-> pv.psp]
 KeyStep(o) == IF o.reason # "" THEN Reject(o.reason, o.class) ELSE hist' = hist \cup o.add
 TKey == E.k = "Key" /\ UNCHANGED <<R, n, present, sess>> /\ KeyStep(KeyOutcome(E, T, IT, R, n, present, hist))
